@@ -1,6 +1,7 @@
 import GeosModel.Proofs.Precision.RoundLemmas
 import GeosModel.Proofs.Precision.RoundF64
 import GeosModel.Proofs.Precision.RoundNE
+import GeosModel.Proofs.Precision.Glue
 import GeosModel.Proofs.Precision.HotPixelLemmas
 import GeosModel.Proofs.Precision.ReduceLemmas
 /-!
@@ -60,22 +61,52 @@ theorem makePrecise_nearest_exact :
 
 /-! ## 3. `makePrecise` in binary64 (PARTIAL) -/
 
-/-- FULL statement (not proved in this generality): the floating `makePrecise` of the model — `roundNE` after every
+/-- FULL statement (NOT proved in this generality): the floating `makePrecise` of the model — `roundNE` after every
 `*` and `/`, exactly what `PM.makePrecise` computes and what stream `precise` compares with the library bit for bit
-— is idempotent on every finite double for every model built by `PrecisionModel(scale)`, as long as the rounded
-integer stays below 2^51. -/
+— is idempotent on every finite double for every model built by `PrecisionModel(scale)` with a positive finite
+scale, as long as the scaled value stays below 2^51. -/
 def makePrecise_idem_f64_full : Prop :=
   ∀ (newScale v : F64.Val), vIsFin newScale = true → vLt zero newScale = true → vIsFin v = true →
     vLt (vFabs (mulF v (PM.setScale newScale).scale)) (.fin false (pow2 51) 0) = true →
     vLt (vFabs (divF v (PM.setScale newScale).gridSize)) (.fin false (pow2 51) 0) = true →
     (PM.setScale newScale).makePrecise ((PM.setScale newScale).makePrecise v) = (PM.setScale newScale).makePrecise v
 
-/-- PARTIAL, part A (any rounding function obeying the standard model): for the floating composition
+/-- PARTIAL (bit-level model, scale branch = grid size ≤ 1).  For ANY positive finite scale `≤ 2^1022` — no power
+of two or ten is needed — and any double `v`: if no intermediate result overflows (`y = v * scale`, the first result
+`z = r / scale` and the product `z * scale` are finite) and the integer `r = java_math_round(y)` satisfies
+`0 < |r| ≤ 2^50`, then `makePrecise (makePrecise v) = makePrecise v` as bit patterns.  (That `z` and `z * scale`
+are normal numbers with a full 53-bit mantissa is derived, via the correctness of the binade selection.)
+Missing w.r.t. `makePrecise_idem_f64_full`: (a) finiteness of the three intermediates is assumed rather than
+derived from magnitude bounds; (b) `r = 0` (signed zeros); (c) `2^50 < |r| < 2^51`; (d) the grid branch
+(`gridSize > 1`) at bit level — for it only the abstract composition is proved (`makePrecise_idem_f64_abstract`);
+(e) that `PM.setScale` always yields such a model.  All of (a)–(e) are exercised by stream `precise`. -/
+theorem makePrecise_idem_f64 (pm : PM) (ms : ℕ) (es : ℤ) (hs : pm.scale = .fin false ms es) (hms : ms ≠ 0)
+    (hS : finRat false ms es ≤ 2 ^ (1022 : ℤ))
+    (hg : vLt one pm.gridSize = false) (v : F64.Val)
+    (ny : Bool) (my : ℕ) (ey : ℤ) (hy : mulF v pm.scale = .fin ny my ey)
+    (hr0 : javaRound (finRat ny my ey) ≠ 0) (hr : (javaRound (finRat ny my ey)).natAbs ≤ 2 ^ 50)
+    (nz : Bool) (mz : ℕ) (ez : ℤ) (hz : pm.makePrecise v = .fin nz mz ez)
+    (ny' : Bool) (my' : ℕ) (ey' : ℤ) (hy' : mulF (.fin nz mz ez) pm.scale = .fin ny' my' ey') :
+    pm.makePrecise (pm.makePrecise v) = pm.makePrecise v :=
+  makePrecise_idem_model' pm ms es hs hms hS hg v ny my ey hy hr0 hr nz mz ez hz ny' my' ey' hy'
+
+-- non-vacuity: PrecisionModel(1000.0), v = 1.2345 (bits 0x3ff3c083126e978d): y = 1234.5 ↦ r = 1235 ↦ z = 1.235
+example : (PM.setScale (F64.decode 0x408f400000000000)).makePrecise
+      ((PM.setScale (F64.decode 0x408f400000000000)).makePrecise (F64.decode 0x3ff3c083126e978d)) =
+    (PM.setScale (F64.decode 0x408f400000000000)).makePrecise (F64.decode 0x3ff3c083126e978d) :=
+  makePrecise_idem_f64 _ 8796093022208000 (-43) (by decide +kernel) (by decide)
+    (le_trans (b := (2 : ℚ) ^ (10 : ℤ)) (by rw [finRat_eq]; norm_num) (zpow_le_zpow_right₀ (by norm_num) (by norm_num)))
+    (by decide +kernel) _
+    false 5429388417957888 (-42) (by decide +kernel) (by decide +kernel) (by decide +kernel)
+    false 5561945539802563 (-52) (by decide +kernel)
+    false 5431587441213440 (-42) (by decide +kernel)
+
+/-- PARTIAL (any rounding function obeying the standard model, both branches): for the floating composition
 `rnd(javaRound(rnd(x·s)) / s)` (scale branch) and `rnd(javaRound(rnd(x/g)) · g)` (grid branch), with ANY positive
-scale or grid size — no power of two or ten needed — `makePrecise ∘ makePrecise = makePrecise` provided the
-integer `r` the first application rounds to satisfies `|r| ≤ 2^50` and `rnd` has relative error `≤ 2^-53` at the
-two operations of the second application (relative to the rounded value). -/
-theorem makePrecise_idem_f64_partial (rnd : ℚ → ℚ) :
+scale or grid size, `makePrecise ∘ makePrecise = makePrecise` provided the integer `r` the first application
+rounds to satisfies `|r| ≤ 2^50` and `rnd` has relative error `≤ 2^-53` (relative to the rounded value) at the two
+operations of the second application. -/
+theorem makePrecise_idem_f64_abstract (rnd : ℚ → ℚ) :
     (∀ s x : ℚ, 0 < s →
       |(javaRound (rnd (x * s)) : ℚ)| ≤ 2 ^ 50 →
       |mpScale rnd s x - (javaRound (rnd (x * s)) : ℚ) / s| ≤ (2 : ℚ)⁻¹ ^ 53 * |mpScale rnd s x| →
@@ -88,13 +119,17 @@ theorem makePrecise_idem_f64_partial (rnd : ℚ → ℚ) :
       mpGrid rnd g (mpGrid rnd g x) = mpGrid rnd g x) :=
   ⟨fun s x hs => mpScale_idem rnd s x hs, fun g x hg => mpGrid_idem rnd g x hg⟩
 
-/-- PARTIAL, part B: the model's `roundNE` (`roundMag`: exact round-to-nearest-even of `a/d` to a 53-bit mantissa)
-obeys that standard model on the normal range: if the result is `m·2^e` with a full mantissa (`2^52 ≤ m`), then
-`|m·2^e − a/d| ≤ 2^-53 · (m·2^e)` (relative to the rounded value, the form part A consumes). -/
+/-- the model's `roundNE` (`roundMag`: exact round-to-nearest-even of `a/d` to a 53-bit mantissa) obeys that
+standard model on the normal range: if the result is `m·2^e` with a full mantissa (`2^52 ≤ m`), then
+`|m·2^e − a/d| ≤ 2^-53 · (m·2^e)`; and it converts integers below 2^53 exactly. -/
 theorem roundNE_relative_error (a d m : ℕ) (e : ℤ) (ha : 0 < a) (hd : 0 < d)
     (h : roundMag a d = some (m, e)) (hn : 2 ^ 52 ≤ m) :
     |(m : ℚ) * 2 ^ e - (a : ℚ) / d| ≤ (2 : ℚ)⁻¹ ^ 53 * ((m : ℚ) * 2 ^ e) :=
   roundMag_rel_err a d m e ha hd h hn
+
+theorem roundNE_int_exact (z : Bool) (r : ℤ) (h0 : r ≠ 0) (hb : r.natAbs < 2 ^ 53) :
+    ∃ m e, ofInt z r = .fin (decide (r < 0)) m e ∧ finRat (decide (r < 0)) m e = r ∧ m ≠ 0 :=
+  ofInt_exact z r h0 hb
 
 /-! ## 4. hot pixels -/
 
